@@ -713,7 +713,17 @@ class Key:
         root = HDPrivateKey.from_seed(ctx.rbytes(r.choice([16, 32, 64])), network=net)
         coin = 0 if net == "mainnet" else 1
         mark = r.choice(["h", "'"])
-        self.path = f"m/48{mark}/{coin}{mark}/{r.randrange(0, 3)}{mark}/2{mark}"
+        Key.count = getattr(Key, "count", 0) + 1
+        shape = Key.count % 6
+        if shape == 1:
+            self.path = "m"                                   # the cosigner hands out its ROOT xpub: origin [xfp]
+        elif shape == 3:
+            self.path = "m/" + "/".join(str(r.choice([0, 1, 2147483647])) + r.choice(["", mark])
+                                        for _ in range(r.randrange(1, 8)))
+        elif shape == 5:
+            self.path = f"m/{r.randrange(0, 2 ** 31)}{mark}"
+        else:
+            self.path = f"m/48{mark}/{coin}{mark}/{r.randrange(0, 3)}{mark}/2{mark}"
         self.node = root.traverse(self.path).pub
         self.xfp = root.fingerprint().hex()
         self.plain = self.node.xpub()
